@@ -467,7 +467,7 @@ def run(tier):
         seekable_doc = not (m['ib'] > 0 and m['mode'] in 'stp')     # initial/ibytes is documented for non-seekable sources only
         if seekable_doc and o not in DOC_OPEN:
             chk.violation(f'open_returns_{NAME.get(o, o)}', f'open returned undocumented {NAME.get(o, o)}: {describe(rec, m)}', replay)
-        ops_run = m['ops']
+        ops_run = effective_ops(m['ops'])
         sig = []
         for opi, (op, tok) in enumerate(zip(ops_run, d['R'])):
             why = judge_op(op, tok, m['mode'], o == 0) if seekable_doc else None
@@ -592,6 +592,15 @@ class LazyReplay(dict):
         return self
 
 
+def effective_ops(ops):
+    """the executor skips every non-'cl' op after the first ov_clear (the handle is gone): align ops with the printed results"""
+    ops = list(ops)
+    if 'cl' in ops:
+        k = ops.index('cl')
+        ops = ops[:k + 1] + [o for o in ops[k + 1:] if o == 'cl']
+    return ops
+
+
 def describe(rec, m):
     return f"file={json.dumps(rec, sort_keys=True)} mode={m['mode']} len={m['len']} ibytes={m['ib']} ops={' '.join(m['ops']) or '-'}"
 
@@ -689,7 +698,7 @@ def replay(path):
         return 1
     if d_['O'] not in DOC_OPEN and not (r['ibytes'] > 0 and r['mode'] in 'stp'):
         return 1
-    for op, tok in zip(r['ops'], d_['R']):
+    for op, tok in zip(effective_ops(r['ops']), d_['R']):
         if judge_op(op, tok, r['mode'], d_['O'] == 0) and not (r['ibytes'] > 0 and r['mode'] in 'stp'):
             return 1
     return 0
